@@ -240,9 +240,15 @@ impl Runtime {
                     .unwrap_or_else(|err| error!("scher.initialize upsert={}", err));
 
                 let ctx = e.create_context();
+                let state = e.state();
                 // run the hook events
                 e.run_hooks(&ctx)
                     .unwrap_or_else(|err| error!("scher.initialize hooks={}", err));
+
+                // a hook (a catch without steps) can finish the task and report the new state itself
+                if e.state().is_completed() && e.state() != state {
+                    return;
+                }
 
                 // check task is allowed to emit message to client
                 if !e.state().is_pending() && !e.state().is_running() && !e.is_emit_disabled() {
